@@ -250,35 +250,51 @@ def operator_sweep(run):
                         args.append(lit_of(tn) if isc else t[COLNAME[tn]])
                     if op.name == "str.contains" and len(args) == 4:
                         args[2], args[3] = False, False
-                    kw = {}
                     ck = {c.name: c for c in op.context_kwargs}
+                    base = {}
                     if "arrange" in ck and (ck["arrange"].required or op.ftype == Ftype.WINDOW):
-                        kw["arrange"] = [t.k]
-                    try:
-                        e = ColFn(op, *args, **kw)
-                        if op.ftype == Ftype.AGGREGATE:
-                            q = t >> pdt.summarize(y=e)
-                        else:
-                            q = t >> pdt.mutate(y=e)
-                        if kind == "pol":
-                            # build the LazyFrame without collecting it: the implementation lookup and the
-                            # compilation run, data-dependent engine errors stay out (they belong to C03/C14)
-                            q >> pdt.export(pdt.Polars(lazy=True))
-                        else:
-                            txt = q >> pdt.build_query()
-                            for p in one_statement_problems(txt):
-                                run.finding(Finding("statement:" + kind, kind, None, f"{label}: {p}", extra={"feature": None}), None)
-                        run.counters[f"op_ok:{kind}"] += 1
-                    except Exception as ex:  # noqa: BLE001
-                        cls = type(ex).__name__
-                        if cls == "NotSupportedError":
-                            run.counters[f"op_not_supported:{kind}"] += 1
-                        else:
-                            feat = op_feature(op, combo, kind, cls, str(ex))
-                            run.finding(Finding("op:" + kind, kind, None, f"{label} on {kind}: {cls}: {str(ex)[:220]}", exc=cls, extra={"feature": feat}), None)
-                    for v in M.SAN.drain():
-                        if v["inv"].startswith("C19"):
-                            run.finding(Finding("san:" + v["inv"], kind, None, f"{label}: {v['detail']}", extra={"feature": op_feature(op, combo, kind, "None", "")}), None)
+                        base["arrange"] = [t.k]
+                    # every optional context argument once on its own and all together
+                    variants = [base]
+                    extra = {}
+                    if "arrange" in ck and "arrange" not in base:
+                        extra["arrange"] = [t.i.descending().nulls_last(), t.k]
+                    if "filter" in ck:
+                        extra["filter"] = [t.b]
+                    if "partition_by" in ck:
+                        extra["partition_by"] = [t.s]
+                    for k2, v2 in extra.items():
+                        variants.append(base | {k2: v2})
+                    if len(extra) > 1:
+                        variants.append(base | extra)
+                    for kw in variants:
+                        if kw is not base:
+                            run.counters["context_kwarg_variants"] += 1
+                        try:
+                            e = ColFn(op, *args, **kw)
+                            if op.ftype == Ftype.AGGREGATE and "partition_by" not in kw:
+                                q = t >> pdt.summarize(y=e)
+                            else:
+                                q = t >> pdt.mutate(y=e)
+                            if kind == "pol":
+                                # build the LazyFrame without collecting it: the implementation lookup and the
+                                # compilation run, data-dependent engine errors stay out (they belong to C03/C14)
+                                q >> pdt.export(pdt.Polars(lazy=True))
+                            else:
+                                txt = q >> pdt.build_query()
+                                for p in one_statement_problems(txt):
+                                    run.finding(Finding("statement:" + kind, kind, None, f"{label}: {p}", extra={"feature": None}), None)
+                            run.counters[f"op_ok:{kind}"] += 1
+                        except Exception as ex:  # noqa: BLE001
+                            cls = type(ex).__name__
+                            if cls == "NotSupportedError":
+                                run.counters[f"op_not_supported:{kind}"] += 1
+                            else:
+                                feat = op_feature(op, combo, kind, cls, str(ex))
+                                run.finding(Finding("op:" + kind, kind, None, f"{label}{sorted(kw)} on {kind}: {cls}: {str(ex)[:220]}", exc=cls, extra={"feature": feat}), None)
+                        for v in M.SAN.drain():
+                            if v["inv"].startswith("C19"):
+                                run.finding(Finding("san:" + v["inv"], kind, None, f"{label}: {v['detail']}", extra={"feature": op_feature(op, combo, kind, "None", "")}), None)
                 run.case(shape=("op", label), nontrivial=True, sample=({"operator_call": label, "backends": list(tabs)} if n % 80 == 1 else None))
     run.counters["operator_signatures_swept"] += n
 
